@@ -4,7 +4,7 @@ import LanceModel.C18.HistLemmas
 C18 lemmas, layer 7: the fragment layout of a version as input of `RowIdIndex::new` (C34), and the row behind an address.
 -/
 namespace LanceModel.C18
-open LanceModel.Table LanceModel.C17 List
+open LanceModel.Table LanceModel.C17Base List
 
 /-- the offsets a fragment's deletion vector covers -/
 def delOffs : Nat → List PRow → List Nat
